@@ -99,4 +99,33 @@ def moduleProps [DecidableEq P] (ser : P → J) (enc : PropEnc P) (base : List S
 /-- what a reader of the report takes a property to be: the entry, or the default when there is none -/
 def reportedProp (props : List (String × J)) (ext : String) (dflt : J) : J := (getProp props ext).getD dflt
 
+/-! ### `readonly` and `constant` of a parameter: class, configuration, `Parameter.finish`
+
+`frappy/modulebase.py` 476-486 (`_add_accessible`: `for propname, propvalue in cfg.items(): accessible.setProperty(propname, propvalue)`;
+a configured `constant` is converted by the datatype), 419-421 (`aobj.finish(self)` for every accessible AFTER the configuration),
+`frappy/params.py` 299-309 (`Parameter.finish`: `if self.constant is not None: … self.readonly = True`). -/
+
+structure ParamInit (V : Type) where
+  /-- `readonly` / `constant` of the class-level `Parameter` object (after its own `finish` at class creation) -/
+  clsReadonly : Bool
+  clsConstant : Option V
+  /-- the configuration entries `readonly` / `constant` of this parameter, if given -/
+  cfgReadonly : Option Bool
+  cfgConstant : Option V
+
+variable {V : Type}
+
+/-- the configuration wins over the class; `finish` then makes a constant parameter read-only -/
+def finishFlags (i : ParamInit V) : Bool × Option V :=
+  let c := match i.cfgConstant with
+    | some c => some c
+    | none => i.clsConstant
+  let r := match i.cfgReadonly with
+    | some r => r
+    | none => i.clsReadonly
+  (r || c.isSome, c)
+
+def Param.withInit (p : Param J V) (i : ParamInit V) : Param J V :=
+  { p with readonly := (finishFlags i).1, constant := (finishFlags i).2 }
+
 end Frappy.Node
